@@ -9,7 +9,7 @@ REPO = os.environ.get('VERIF_REPO', '/repo')
 DEFAULT_DEFS = ['-DNDEBUG', '-DMP_USE_ATOMIC', '-DMP_USE_HASH', '-DMP_USE_UNIQUE_PTR', '-DMP_DATE=20240320',
                 '-DMP_SYSINFO="Linux x86_64"', '-DFMT_USE_FILE_DESCRIPTORS']
 CLANG_FLAGS = ['-std=c++17', '-O1', '-fno-vectorize', '-fno-slp-vectorize', '-fno-unroll-loops', '-w',
-               '-fno-strict-aliasing']
+               '-fno-strict-aliasing', '-include', os.path.join(os.path.dirname(os.path.abspath(__file__)), 'vf_noextern.h')]
 CBMC_FLAGS = ['--unwinding-assertions', '--pointer-overflow-check', '--undefined-shift-check', '--signed-overflow-check',
               '--drop-unused-functions', '--no-malloc-may-fail']
 
@@ -55,7 +55,7 @@ class Unit:
     def __init__(s, name, wrap, harness, externs=(), ll2c_args=(), cxxflags=(), extra_c=(), real_link=(), san=True, tv=True, extra_repo_cc=()):
         s.name = name; s.wrap = wrap; s.harness = harness; s.externs = list(externs); s.ll2c_args = list(ll2c_args)
         s.cxxflags = list(cxxflags); s.extra_c = list(extra_c); s.real_link = list(real_link); s.san = san; s.tv = tv
-        s.extra_repo_cc = list(extra_repo_cc); s.stub_undefined = False
+        s.extra_repo_cc = list(extra_repo_cc); s.stub_undefined = False; s.cdefs = []
 
 class Harness:
     def __init__(s, name, unit, unwind=4, unwindset=(), backend='sat', timeout=120, mem_gb=8, defines=(), bounds='', claims='',
@@ -124,6 +124,7 @@ class Check:
         info['report'] = rep
         info['ir_sha'] = hashlib.sha256(open(ll, 'rb').read()).hexdigest()[:16]
         info['untranslated'] = {k: v for k, v in rep['functions'].items() if isinstance(v, str)}
+        if getattr(u, 'post', None): u.post(s, info)
         # harness table for native runs
         rc, pre, err, dt = run(['gcc', '-E', '-DVF_NATIVE', '-I' + TOOLS, '-I' + d, '-I' + s.hdir, os.path.join(s.hdir, u.harness)])
         hs = sorted(set(re.findall(r'\bvoid (h_\w+)\(void\)\s*\{', pre)))
@@ -145,7 +146,7 @@ class Check:
         hc = os.path.join(s.hdir, u.harness)
         extra = [os.path.join(s.hdir, x) for x in u.extra_c]
         if which == 'gen':
-            cmd = ['gcc', '-O1', '-w', '-DVF_NATIVE', '-DVF_GEN', '-fno-strict-aliasing'] + inc + [os.path.join(d, 'gen.c'), os.path.join(TOOLS, 'vf_rt.c'),
+            cmd = ['gcc', '-O1', '-w', '-DVF_NATIVE', '-DVF_GEN', '-fno-strict-aliasing'] + ['-D' + x for x in u.cdefs] + inc + [os.path.join(d, 'gen.c'), os.path.join(TOOLS, 'vf_rt.c'), os.path.join(TOOLS, 'vf_libc.c'),
                    os.path.join(TOOLS, 'vf_native.c'), os.path.join(d, 'table.c'), hc] + extra + ['-lm', '-o', exe]
             rc, out, err, dt = run(cmd, timeout=600)
             if rc != 0: s.log('native gen build failed:', err[-1500:]); return None
@@ -154,14 +155,14 @@ class Check:
             objs = []
             for i, src in enumerate([os.path.join(s.hdir, u.wrap)] + [os.path.join(REPO, x) for x in u.extra_repo_cc]):
                 o = os.path.join(d, 'real%d.o' % i)
-                cmd = ['g++', '-std=c++17', '-O1', '-g', '-w', '-fno-strict-aliasing'] + san + s.defs + include_flags() + ['-I' + s.hdir, '-I' + TOOLS] + u.cxxflags + ['-DVF_REAL_BUILD', '-c', src, '-o', o]
+                cmd = ['g++', '-std=c++17', '-O1', '-g', '-w', '-fno-strict-aliasing'] + san + s.defs + include_flags() + ['-I' + s.hdir, '-I' + TOOLS] + u.cxxflags + list(getattr(u, 'real_cxxflags', [])) + ['-DVF_REAL_BUILD', '-c', src, '-o', o]
                 rc, out, err, dt = run(cmd, timeout=900)
                 if rc != 0: s.log('real build failed:', err[-1500:]); return None
                 objs.append(o)
             cobjs = []
             for i, src in enumerate([os.path.join(TOOLS, 'vf_native.c'), os.path.join(d, 'table.c'), hc] + extra):
                 o = os.path.join(d, 'realc%d.o' % i)
-                rc, out, err, dt = run(['gcc', '-O1', '-g', '-w', '-DVF_NATIVE', '-DVF_REAL', '-fno-strict-aliasing'] + inc + ['-c', src, '-o', o], timeout=300)
+                rc, out, err, dt = run(['gcc', '-O1', '-g', '-w', '-DVF_NATIVE', '-DVF_REAL', '-fno-strict-aliasing'] + ['-D' + x for x in u.cdefs] + inc + ['-c', src, '-o', o], timeout=300)
                 if rc != 0: s.log('real harness build failed:', err[-1500:]); return None
                 cobjs.append(o)
             rc, out, err, dt = run(['g++', '-Wl,--no-demangle'] + san + objs + cobjs + u.real_link + ['-lm', '-o', exe], timeout=300)
@@ -201,12 +202,12 @@ class Check:
     # ---------------- cbmc
     def cbmc_cmd(s, info, h, witness, extra=()):
         u = info['unit']; d = info['dir']
-        cmd = ['cbmc', os.path.join(d, 'gen.c'), os.path.join(TOOLS, 'vf_rt.c'), os.path.join(s.hdir, u.harness)]
+        cmd = ['cbmc', os.path.join(d, 'gen.c'), os.path.join(TOOLS, 'vf_rt.c'), os.path.join(TOOLS, 'vf_libc.c'), os.path.join(s.hdir, u.harness)]
         cmd += [os.path.join(s.hdir, x) for x in u.extra_c]
         cmd += ['-I' + TOOLS, '-I' + d, '-I' + s.hdir, '--function', h.name, '--unwind', str(h.unwind)]
         if h.unwindset: cmd += ['--unwindset', ','.join(h.unwindset)]
         cmd += CBMC_FLAGS + h.flags
-        for df in h.defines: cmd += ['-D' + df]
+        for df in h.defines + u.cdefs: cmd += ['-D' + df]
         for k in h.known:
             if k in s.known: cmd += ['-DKF_' + k]
         if witness: cmd += ['-DWITNESS']
@@ -230,7 +231,14 @@ class Check:
         res['properties'] = len(props); res['failed'] = [(p, t) for p, t, r in props if r == 'FAILURE']
         if rc == 'timeout': res['status'] = 'timeout'
         elif verdict == 'ERROR': res['status'] = 'error'; res['error'] = (out[-800:] + err[-800:])
-        else: res['status'] = 'pass' if verdict == 'SUCCESSFUL' else 'fail'
+        else:
+            hard = [f for f in res['failed'] if '.pointer_arithmetic.' not in f[0]]
+            if verdict != 'SUCCESSFUL' and not hard and res['failed']:
+                # only 'forming an out-of-object pointer' reports: no sanitizer can confirm them (DESIGN 2.6) -> listed, not blocking
+                res['unconfirmed_ub'] = res['failed']; res['failed'] = []
+                for f in res['unconfirmed_ub']: s.unconfirmed_ub.append((h.name, f[1]))
+                verdict = 'SUCCESSFUL'
+            res['status'] = 'pass' if verdict == 'SUCCESSFUL' else 'fail'
         if h.witness and res['status'] == 'pass':
             rc2, out2, err2, dt2 = run(s.cbmc_cmd(info, h, True, ['--slice-formula']), timeout=h.timeout, mem_gb=h.mem_gb)
             p2, v2 = s.parse_cbmc(out2)
@@ -240,12 +248,13 @@ class Check:
             res['wall_s'] += round(dt2, 2)
         return res, out
 
-    def get_trace(s, info, h, propname):
-        rc, out, err, dt = run(s.cbmc_cmd(info, h, False, ['--property', propname, '--trace']), timeout=h.timeout, mem_gb=h.mem_gb)
-        vals = {}
-        for m in re.finditer(r'^\s*vf_log\[(\d+)l?\]=(\d+)u?l*\b', out, re.M): vals[int(m.group(1))] = int(m.group(2))
-        n = (max(vals) + 1) if vals else 0
-        return [vals.get(i, 0) for i in range(n)], out
+    def get_trace(s, info, h, propname, ptext=''):
+        extra = ['--property', propname, '--trace']
+        if '.assertion.' in propname:      # VF_ASSERT / VF_CHK: sliced run keeps the inputs via the checksum (see vf_harness.h)
+            extra += ['-DVF_TRACE', '--slice-formula']
+        rc, out, err, dt = run(s.cbmc_cmd(info, h, False, extra), timeout=h.timeout, mem_gb=h.mem_gb)
+        feed = [int(m.group(1)) for m in re.finditer(r'^\s*vf_ndv=(\d+)u?l*\b', out, re.M)]
+        return feed, out
 
     def replay(s, info, h, feed, expect_desc):
         """replay on the REAL build; returns (confirmed, detail)"""
@@ -284,8 +293,8 @@ class Check:
             if res['status'] == 'fail':
                 res['counterexamples'] = []
                 seen_confirm = False
-                for pname, ptext in res['failed'][:4]:
-                    feed, tout = s.get_trace(info, h, pname)
+                for pname, ptext in sorted(res['failed'], key=lambda x: (x[0].startswith('_Z') or 'pointer' in x[0], x[0]))[:4]:
+                    feed, tout = s.get_trace(info, h, pname, ptext)
                     if not h.replayable:
                         res['counterexamples'].append({'property': pname, 'text': ptext, 'feed': feed, 'replay': 'not replayable'}); continue
                     path, detail = s.replay(info, h, feed, ptext)
